@@ -34,12 +34,15 @@ package queueing
 //@   requires lanesOK(p)
 //@   requires forall i in 0..len(p.stages) :: minStage <= p.stages[i].Stage && p.stages[i].Stage <= maxStage + 1
 //@   witness own map = gown
+//@   witness off map = mapof(s, (s - minStage) * p.width)
 //@   label C15.occ.len
-//@   ensures len(result) == (maxStage - minStage + 2) * p.width && fresh(result)
+//@   ensures len(result) == off[maxStage + 2] && fresh(result)
+//@   label C15.occ.rows
+//@   ensures off[minStage] == 0 && off[maxStage] == (maxStage - minStage) * p.width && goffStep(off, p.width, minStage - 1, maxStage + 2) && goffMono(off, p.width, minStage, maxStage + 3)
 //@   label C15.occ.sound
-//@   ensures forall i in 0..len(p.stages) :: result[recSlot(p, i, minStage)]
+//@   ensures occSound(p, result, off)
 //@   label C15.occ.complete
-//@   ensures forall j in 0..len(result) :: result[j] ==> 0 <= own[j] && own[j] < len(p.stages) && recSlot(p, own[j], minStage) == j
+//@   ensures occOwned(p, result, off, own)
 //@   assigns nothing
 //@   loop 0: invariant -1 <= rangeindex && rangeindex < len(occ) && len(occ) == occSlots && fresh(occ) && occSlots == (maxStage - minStage + 2) * p.width
 //@   loop 0: invariant forall k in 0..rangeindex + 1 :: !occ[k]
@@ -170,7 +173,7 @@ package queueing
 // Rows are at least `width` apart (goffMono): with 0 <= Lane < width this makes the slot of a (stage, lane) pair
 // injective by linear reasoning only. slotG(j) = slot of record j.
 //@ func slotG(p, goff, j) = goff[p.stages[j].Stage] + p.stages[j].Lane
-//@ pred goffDef(goff, base, w, lo, hi) = forall s in lo..hi :: goff[s] == (s - base) * w
+//@ pred goffStep(goff, w, lo, hi) = forall s in lo..hi :: goff[s + 1] == goff[s] + w
 //@ pred goffMono(goff, w, lo, hi) = forall a in lo..hi :: forall b in lo..hi :: a < b ==> goff[a] + w <= goff[b]
 // the occupancy table is exact: every record's slot is set (occSound); a set slot k is held by record own[k] (occOwned)
 //@ pred occSound(p, occ, goff) = forall j in 0..len(p.stages) :: occ[slotG(p, goff, j)]
@@ -207,13 +210,13 @@ package queueing
 //@   label C15.adv.progress
 //@   ensures advHyp(p) ==> (forall j in 0..len(p.stages) :: old(p.stages)[j].CycleLeft == 0 ==> p.stages[j].Stage == old(p.stages)[j].Stage + 1)
 //@   assigns elems(p.stages)
-//@   loop 0: ghost goff = mapof(s, (s - minStage) * p.width)
+//@   loop 0: ghost goff = buildOccupancy_off
 //@   loop 0: ghost gown0 = buildOccupancy_own
 //@   loop 0: backedge goff = goff
 //@   loop 0: backedge gown0 = gown1
 //@   loop 0: invariant minStage - 1 <= stage && stage <= maxStage && maxStage <= lastStage - 1 && lastStage == p.numStages - 1 && occBase == minStage && 0 <= minStage && n == len(p.stages)
 //@   loop 0: invariant advFrame(p) && fresh(occ)
-//@   loop 0: invariant goffDef(goff, minStage, p.width, minStage, maxStage + 4)
+//@   loop 0: invariant goffStep(goff, p.width, minStage - 1, maxStage + 3)
 //@   loop 0: invariant goffMono(goff, p.width, minStage, maxStage + 4)
 //@   loop 0: invariant goff[minStage] == 0 && len(occ) == goff[maxStage + 3] && goff[stage + 1] == (stage + 1 - occBase) * p.width
 //@   loop 0: invariant recsOK(p) && stagesIn(p, minStage, maxStage + 1) && advRange(p, minStage, maxStage)
@@ -228,7 +231,7 @@ package queueing
 //@   loop 1: backedge gown1 = (p.stages[athead(i)].Stage == athead(p.stages[i].Stage) ? ownAt(athead(i), gown0, gown1) : upd(ownAt(athead(i), gown0, gown1), goff[stage + 1] + p.stages[athead(i)].Lane, athead(i)))
 //@   loop 1: invariant minStage <= stage && stage <= maxStage && maxStage <= lastStage - 1 && lastStage == p.numStages - 1 && occBase == minStage && 0 <= minStage && n == len(p.stages) && n > 0 && 0 <= i && i <= n
 //@   loop 1: invariant advFrame(p) && fresh(occ)
-//@   loop 1: invariant goffDef(goff, minStage, p.width, minStage, maxStage + 4)
+//@   loop 1: invariant goffStep(goff, p.width, minStage - 1, maxStage + 3)
 //@   loop 1: invariant goffMono(goff, p.width, minStage, maxStage + 4)
 //@   loop 1: invariant goff[minStage] == 0 && len(occ) == goff[maxStage + 3] && goff[stage + 1] == (stage + 1 - occBase) * p.width && goff[stage] == (stage - occBase) * p.width
 //@   loop 1: invariant recsOK(p) && stagesIn(p, minStage, maxStage + 1) && advRange(p, minStage, maxStage)
